@@ -1133,6 +1133,9 @@ def run_audit(ctx):  # noqa: C901, PLR0912, PLR0915
     from dvc_data.hashfile.db.index import ObjectDBIndexNoop
     from dvc_data.hashfile.status import compare_status, status
 
+    from dvc_data.hashfile.hash_info import HashInfo
+    from dvc_data.hashfile.transfer import transfer
+
     o, data, hi = _audit_world()
     n_cases = 0
     observations = ctx.extra.setdefault("observations", {})
@@ -1183,6 +1186,31 @@ def run_audit(ctx):  # noqa: C901, PLR0912, PLR0915
         res, _ = call_status(odb, [hi(n) for n in q], jobs=2)
         judge("object-states/shallow", case, res, [o[n] for n in q], [o[n] for n in ("a", "b", "D", "E")],
               [o["absent"]], path, [o[n] for n in ("a", "b", "D", "E")])
+        impl.rm_rf(root)
+
+        # ---- damaged objects by file mode.  The library's own notion of "protected" is mode == 0o444 exactly
+        # (LocalHashFileDB.is_protected / check): a LOCAL store trusts a damaged object only at that mode;
+        # at any other mode - with or without write bits - it re-hashes, drops it and answers "missing".
+        # A base-class store only looks at the name.
+        root = ctx.fresh("au")
+        modes = [0o400, 0o544, 0o555, 0o600, 0o644, 0o444]
+        dmg = {m: impl.md5hex(b"damaged-%o" % m) for m in modes}
+        planted = {dmg[m]: (b"these bytes do not hash to the name", m) for m in modes}
+        planted[o["a"]] = (data["a"], 0o400)      # intact objects at odd modes stay, whatever the class
+        planted[o["b"]] = (data["b"], 0o555)
+        odb, path = _audit_store(ctx, cls, root, "s", planted)
+        case = {"cls": cls, "damaged_objects_at_modes": [oct(m) for m in modes], "intact_at": ["0o400", "0o555"]}
+        res, _ = call_status(odb, [hi("a"), hi("b")] + [HashInfo("md5", dmg[m]) for m in modes] + [hi("absent")])
+        judge("damaged-object-modes/partition", case, res, [o["a"], o["b"], o["absent"]] + list(dmg.values()),
+              [o["a"], o["b"]], [o["absent"]], path, [o["a"], o["b"]])
+        if res[0] == "ok":
+            ex = set(res[1])
+            trusted = [oct(m) for m in modes if dmg[m] in ex]
+            want = [oct(0o444)] if cls == "local" else [oct(m) for m in modes]
+            if sorted(trusted) != sorted(want):
+                ctx.oracle_fail("C12:audit:damaged-object-trusted-by-mode",
+                                f"{cls} store: damaged objects reported existing at modes {trusted}; a damaged "
+                                f"object is only trusted at {want} (is_protected: exactly 0o444)", case)
         impl.rm_rf(root)
 
         # ---- unparsable directory objects: existence only (shallow, no index); needed (expanded / index)
@@ -1243,6 +1271,43 @@ def run_audit(ctx):  # noqa: C901, PLR0912, PLR0915
                 dim("audit: observed - id dropped when two algorithm names share a value")
                 if sig in ctx.known:
                     ctx.oracle_fail(sig, f"queried {case['q']}; {lost} is in neither exists nor missing", case)
+        impl.rm_rf(root)
+
+    # ---- one index per store: two remotes whose locations differ only in LETTER CASE, same tmp_dir, indexes
+    # from get_index(odb).  A closed push to .../Data must leave the index of .../data without the ids
+    for cls in ("local", "base"):
+        root = ctx.fresh("au")
+        tmpd = os.path.join(root, "tmp")
+        cache, _ = _audit_store(ctx, "local", root, "cache", {o[n]: (data[n], 0o444) for n in ("a", "b", "D")})
+        r1, p1 = _audit_store(ctx, cls, root, "Data", {})
+        r2, p2 = _audit_store(ctx, cls, root, "data", {})
+        r1.tmp_dir = r2.tmp_dir = tmpd
+        case = {"cls": cls, "remotes": ["<tmp>/Data", "<tmp>/data"], "tmp_dir": "shared",
+                "ops": ["push [D, a, b] to Data (dest_index=get_index)", "status [a, b] on data (index=get_index)"]}
+        n_cases += 1
+        ctx.case(dict(case, kind="audit", scenario="index-per-store-case-twins"), True)
+        dim("audit: index-per-store (locations differing in letter case)")
+        ix1 = get_index(r1)
+        res1 = transfer(cache, r1, {hi("D"), hi("a"), hi("b")}, dest_index=ix1, jobs=1)
+        held1 = sorted(ix1.hashes())
+        ix1.close()
+        ix2 = get_index(r2)
+        held2 = sorted(ix2.hashes())
+        r = status(r2, [hi("a"), hi("b")], index=ix2, jobs=1)
+        ix2.close()
+        in2 = set(impl.walk_store(p2))
+        what = []
+        if res1.failed or not {o["D"], o["a"], o["b"]} <= set(impl.walk_store(p1)) or not held1:
+            what.append(f"the closed push to Data did not deliver / index: failed={len(res1.failed)} index={held1}")
+        bad = [x for x in held2 if x not in in2]
+        if bad:
+            what.append(f"the index of <tmp>/data holds {bad}: never delivered to that store and listed by no "
+                        "directory object there")
+        wrong = sorted(h.value for h in r.exists if h.value not in in2)
+        if wrong:
+            what.append(f"status through it reports {wrong} existing in <tmp>/data, which is empty")
+        if what:
+            ctx.oracle_fail("C12:index-invented:shared-between-stores", "; ".join(what), case)
         impl.rm_rf(root)
 
     # ---- compare_status: a directory object fine on one side, unparsable / missing on the other
